@@ -28,7 +28,8 @@ class Lab:
         self.lock = threading.Lock()
         self.max_seen = 0        # most simultaneously established acceptor associations seen at any notification
         ae = self.ae = AE("ACCEPTOR")
-        ae.maximum_associations = maximum
+        # the application lowers the limit after the first server has been started: the setting in force is the AE's current one
+        ae.maximum_associations = maximum + 5
         ae.require_called_aet = True          # requests of the scenario's "bad" threads name another called AE title
         ae.acse_timeout, ae.dimse_timeout, ae.network_timeout = 10, 10, 30
         ae.add_supported_context(V)
@@ -36,6 +37,7 @@ class Lab:
                          (evt.EVT_ESTABLISHED, self._count), (evt.EVT_RELEASED, self._count), (evt.EVT_ABORTED, self._count)]
         self.servers, self.ports = {}, {}
         self.start(1)
+        ae.maximum_associations = maximum
         self.port = self.ports[1]
 
     def start(self, x):
